@@ -103,6 +103,9 @@ type faultSpec struct {
 	// storeClosing: shutdown begins (the service context is cancelled, the rules store starts closing) while the
 	// request stands at its state write; the store is reopened after the request.
 	storeClosing bool
+	// lockStateFail: the accounts fetched for this request cannot say whether they are unlocked (IsUnlocked returns an error,
+	// as a remote or hardware-backed account may)
+	lockStateFail bool
 	signFail    map[int]bool
 }
 
@@ -119,6 +122,8 @@ func parseFaults(s string) *faultSpec {
 			f.storeBlocked = true
 		case tok == "c":
 			f.storeClosing = true
+		case tok == "u":
+			f.lockStateFail = true
 		case tok == "S":
 			f.storeFail = true
 			f.storeLanded = true
@@ -136,5 +141,5 @@ func parseFaults(s string) *faultSpec {
 }
 
 func (f *faultSpec) any() bool {
-	return len(f.fetchFail) > 0 || f.storeFail || f.storeBlocked || f.storeClosing || len(f.signFail) > 0
+	return len(f.fetchFail) > 0 || f.storeFail || f.storeBlocked || f.storeClosing || f.lockStateFail || len(f.signFail) > 0
 }
